@@ -44,6 +44,9 @@ def case_strategy(draw):
         'clients': clients,
         'schedule': draw(st.lists(st.tuples(st.integers(0, n - 1), st.one_of(st.integers(1, 12), st.sampled_from([16, 20, 25, 30, 40, 60]))), max_size=16)),
         'probe': draw(st.booleans()),
+        # RLock only: these contenders also try, between their loops, to release the lock while they do not hold it (refused,
+        # AssertionError, nothing changes): a transaction that ends with an exception while others wait or hold the lock
+        'refusers': draw(st.lists(st.integers(0, n - 1), max_size=2, unique=True)) if kind == 'rlock' else [],
     }
 
 
@@ -111,8 +114,16 @@ class Contenders(SubCheck):
             return clients, closeables
 
         def do_op(client, op):
-            depth = op[1]
             what, obj, i = client
+            if op[0] == 'refused':
+                try:
+                    obj.release()
+                except AssertionError:
+                    return ('ok', None)
+                except Exception as exc:
+                    return ('exc', type(exc).__name__)
+                return ('exc', 'release-of-unheld-lock-accepted')
+            depth = op[1]
             try:
                 if what == 'barrier':
                     obj()
@@ -127,6 +138,8 @@ class Contenders(SubCheck):
                 return ('exc', type(exc).__name__)
 
         progs = [[('loop', d) for d in loops] for loops in case['clients']]
+        for i in case.get('refusers', []):
+            progs[i] = [x for d in progs[i] for x in (('refused',), d)] + [('refused',)]
         total_ops = sum(sum(d for d in loops) for loops in case['clients'])
         max_steps = 50 * 14 * max(total_ops, 1) * (3 if case['cache'] == 'fanout' else 1)
 
